@@ -1736,8 +1736,10 @@ def _multi_pub(ctx, item, label):
     if [g.public_data for g in got2] != [p for p, _ in keys]:
         ctx.bad('multi_key_file_key_differs', f'{label}: load_public_keys')
     # text-only files can also be checked against ssh-keygen -l
+    # (not with CRLF separators: ssh-keygen -l itself is erratic on those)
     if KEYGEN and all(fmt == 'openssh' and spec in KEYGEN_TYPES
-                      for spec, fmt, _ in item['elems']):
+                      for spec, fmt, _ in item['elems']) and \
+            not any('\r' in sep for sep in item['seps']):
         r = tool([KEYGEN, '-l', '-f', path])
         if r.returncode == 0:
             fps = [l.split()[1].decode() for l in r.stdout.splitlines()
